@@ -91,7 +91,7 @@ let handle (p : string) : string =
     Buffer.contents out ^ "class=" ^ String.concat "/" (List.rev !classes)
   | _ -> "bad-payload"
 
-(* ---- histories: H cap op op ...  with op one of: S[FI][nfi]  P:pop  Rk  R*  A  D (destroy the agent, make a new one)  X:tok  L:tok (late reply to the request in flight at the last Abort) ---- *)
+(* ---- histories: H cap op op ...  with op one of: S[FI][nfia] (a = the callback calls Abort(): nothing is running then, no effect)  P:pop  Rk  R*  A  D (destroy the agent, make a new one)  X:tok  L:tok (late reply to the request in flight at the last Abort) ---- *)
 let event_s ((p, u) : (n * bool) * n list) : string =
   let (id, st) = p in
   Printf.sprintf "E%s:%s:%s" (string_of_n id) (bool01 st)
